@@ -470,6 +470,24 @@ fn verdict_cases(cw: &mut CaseWriter, seed: u64, n: usize) {
                 i += 1;
             }
         }
+        // systematic: every block of the project loses its first attribute line, and its last one
+        for sp in &spans {
+            for (what, li) in [("first-attribute-deleted", sp.0 + 1), ("last-attribute-deleted", sp.1.saturating_sub(1))] {
+                if li <= sp.0 || li >= sp.1 {
+                    continue;
+                }
+                if let Some(t2) = damage(&lines, li, "delete", text.len()) {
+                    let r = std::panic::catch_unwind(std::panic::AssertUnwindSafe(|| process(&ctx, "gen", &t2)));
+                    let v = match r {
+                        Ok(Ok(true)) => "converted",
+                        Ok(Ok(false)) | Ok(Err(_)) => "rejected",
+                        Err(_) => "crashed",
+                    };
+                    cw.write(json!({"op": "verdict", "kind": "verdict", "label": format!("proj{i}:{what}:{}@{li}", sp.2), "text": t2, "impl": v}));
+                    i += 1;
+                }
+            }
+        }
     }
 }
 
@@ -668,7 +686,7 @@ pub fn run(args: &Args) -> i32 {
             "impl": {"class": class, "site": it.next(), "msg": it.next(), "count": n, "first_example": ex}}));
     }
     edge_cases(&mut cw, args.seed, if thorough { 4000 } else { 600 });
-    verdict_cases(&mut cw, args.seed, if thorough { 4000 } else { 800 });
+    verdict_cases(&mut cw, args.seed, if thorough { 12000 } else { 2400 });
     cw.write(json!({"op": "noop", "label": "summary", "kind": "summary",
         "impl": {"files": fs.len(), "lines": counts.iter().sum::<usize>(), "stride": stride, "outcomes": totals, "by_edit_and_file_kind": per_kind,
                  "exhaustive": stride == 1}}));
